@@ -3,31 +3,73 @@
 #ifndef TETL_CMATH_REMAINDER_HPP
 #define TETL_CMATH_REMAINDER_HPP
 
+#include <etl/_config/all.hpp>
+
 #include <etl/_3rd_party/gcem/gcem.hpp>
+#include <etl/_type_traits/is_constant_evaluated.hpp>
+#include <etl/_type_traits/is_same.hpp>
 
 namespace etl {
 
-/// Computes the remainder of the floating point division operation x/y.
-/// \details https://en.cppreference.com/w/cpp/numeric/math/remainder
-/// \ingroup cmath
-[[nodiscard]] constexpr auto remainder(float x, float y) noexcept -> float { return etl::detail::gcem::fmod(x, y); }
+namespace detail {
+
+template <typename T>
+[[nodiscard]] constexpr auto remainder(T x, T y) noexcept -> T
+{
+    if (not is_constant_evaluated()) {
+        if constexpr (is_same_v<T, float>) {
+#if __has_builtin(__builtin_remainderf)
+            return __builtin_remainderf(x, y);
+#endif
+        }
+        if constexpr (is_same_v<T, double>) {
+#if __has_builtin(__builtin_remainder)
+            return __builtin_remainder(x, y);
+#endif
+        }
+        if constexpr (is_same_v<T, long double>) {
+#if __has_builtin(__builtin_remainderl)
+            return __builtin_remainderl(x, y);
+#endif
+        }
+    }
+    // constant evaluation: IEEE remainder derived from the truncated remainder
+    auto const r = detail::gcem::fmod(x, y);
+    if (r != r or r == T(0)) {
+        return r;
+    }
+    auto const ay  = y < T(0) ? -y : y;
+    auto const ar  = r < T(0) ? -r : r;
+    auto const odd = detail::gcem::fmod(detail::gcem::trunc(x / y), T(2)) != T(0);
+    if (ar + ar > ay or (ar + ar == ay and odd)) {
+        return r < T(0) ? r + ay : r - ay;
+    }
+    return r;
+}
+
+} // namespace detail
 
 /// Computes the remainder of the floating point division operation x/y.
 /// \details https://en.cppreference.com/w/cpp/numeric/math/remainder
 /// \ingroup cmath
-[[nodiscard]] constexpr auto remainderf(float x, float y) noexcept -> float { return etl::detail::gcem::fmod(x, y); }
+[[nodiscard]] constexpr auto remainder(float x, float y) noexcept -> float { return etl::detail::remainder(x, y); }
 
 /// Computes the remainder of the floating point division operation x/y.
 /// \details https://en.cppreference.com/w/cpp/numeric/math/remainder
 /// \ingroup cmath
-[[nodiscard]] constexpr auto remainder(double x, double y) noexcept -> double { return etl::detail::gcem::fmod(x, y); }
+[[nodiscard]] constexpr auto remainderf(float x, float y) noexcept -> float { return etl::detail::remainder(x, y); }
+
+/// Computes the remainder of the floating point division operation x/y.
+/// \details https://en.cppreference.com/w/cpp/numeric/math/remainder
+/// \ingroup cmath
+[[nodiscard]] constexpr auto remainder(double x, double y) noexcept -> double { return etl::detail::remainder(x, y); }
 
 /// Computes the remainder of the floating point division operation x/y.
 /// \details https://en.cppreference.com/w/cpp/numeric/math/remainder
 /// \ingroup cmath
 [[nodiscard]] constexpr auto remainder(long double x, long double y) noexcept -> long double
 {
-    return etl::detail::gcem::fmod(x, y);
+    return etl::detail::remainder(x, y);
 }
 
 /// Computes the remainder of the floating point division operation x/y.
@@ -35,7 +77,7 @@ namespace etl {
 /// \ingroup cmath
 [[nodiscard]] constexpr auto remainderl(long double x, long double y) noexcept -> long double
 {
-    return etl::detail::gcem::fmod(x, y);
+    return etl::detail::remainder(x, y);
 }
 
 } // namespace etl
